@@ -241,6 +241,7 @@ type outcome struct {
 	s       *State
 	results []*Val
 	panic   bool
+	frame   *Frame
 }
 
 type unsupported struct{ msg string }
@@ -432,7 +433,7 @@ func (e *Engine) load(s *State, a *Addr, in ssa.Instruction) *Val {
 			h := e.heapGet(s, "C!"+typeKey(t)+l.Path, "(Array Int "+l.Sort+")")
 			term = app("select", h, a.Base)
 		case AGlobal:
-			term = e.heapGet(s, "G!"+sanitize(a.Glob.String())+l.Path, l.Sort)
+			term = e.heapGet(s, "G!"+sanitize(a.Glob.String())+sanitize(a.Path)+l.Path, l.Sort)
 		}
 		v.L = append(v.L, e.define(s, "ld", l.Sort, term))
 	}
@@ -554,7 +555,7 @@ func (e *Engine) store(s *State, a *Addr, v *Val, in ssa.Instruction) {
 			h := e.heapGet(s, name, sortS)
 			e.heapSet(s, name, sortS, app("store", h, a.Base, v.L[i]))
 		case AGlobal:
-			name := "G!" + sanitize(a.Glob.String()) + l.Path
+			name := "G!" + sanitize(a.Glob.String()) + sanitize(a.Path) + l.Path
 			e.heapGet(s, name, l.Sort)
 			e.heapSet(s, name, l.Sort, v.L[i])
 		}
@@ -764,6 +765,7 @@ func (e *Engine) runFunc(s0 *State, fn *ssa.Function, args []*Val, binds []*Val,
 	}
 	for i := range outs {
 		o := &outs[i]
+		o.frame = o.s.top()
 		o.s.Frames = o.s.Frames[:len(o.s.Frames)-1]
 	}
 	return outs
@@ -1019,21 +1021,35 @@ func (e *Engine) storeTargets(addr ssa.Value, seen map[*ssa.Alloc]bool, m *mods)
 }
 
 func (e *Engine) allocEscapes(a *ssa.Alloc) bool {
-	refs := a.Referrers()
-	if refs == nil {
+	return addrEscapes(a, a.Referrers(), 0)
+}
+
+// addrEscapes: may the address value v (an Alloc or an address derived from it) become visible to
+// code outside this function body? Loads, stores through it and further field/index addressing do
+// not leak it; anything else (call argument, stored as a value, closure binding, slicing) does.
+func addrEscapes(v ssa.Value, refs *[]ssa.Instruction, depth int) bool {
+	if refs == nil || depth > 6 {
 		return true
 	}
 	for _, r := range *refs {
 		switch x := r.(type) {
 		case *ssa.Store:
-			if x.Val == ssa.Value(a) {
+			if x.Val == v {
 				return true
 			}
 		case *ssa.UnOp:
 			if x.Op != token.MUL {
 				return true
 			}
-		case *ssa.FieldAddr, *ssa.IndexAddr, *ssa.DebugRef:
+		case *ssa.FieldAddr:
+			if addrEscapes(x, x.Referrers(), depth+1) {
+				return true
+			}
+		case *ssa.IndexAddr:
+			if addrEscapes(x, x.Referrers(), depth+1) {
+				return true
+			}
+		case *ssa.DebugRef:
 		default:
 			return true
 		}
@@ -1047,6 +1063,11 @@ func (e *Engine) havocAll(s *State) {
 		names = append(names, name)
 	}
 	sort.Strings(names)
+	var priv []string
+	for r := range s.Private {
+		priv = append(priv, r)
+	}
+	sort.Strings(priv)
 	for _, name := range names {
 		if name == "Alloc" {
 			// allocation only grows
@@ -1059,10 +1080,36 @@ func (e *Engine) havocAll(s *State) {
 		if strings.HasPrefix(name, "CC!") {
 			continue // channel capacities never change
 		}
+		if e.immutableHeap(name) {
+			continue // field written only while its object is being constructed (checked structurally)
+		}
+		old, had := s.Heap[name]
 		e.heapHavoc(s, name)
+		if had && strings.HasPrefix(name, "F!") {
+			// objects whose address never leaves this function body cannot be touched by anyone else
+			for _, r := range priv {
+				s.assume(eq(app("select", s.Heap[name], r), app("select", old, r)))
+			}
+		}
 	}
 	s.Epoch++
 	s.FreshRefs = map[string]bool{}
+}
+
+func (e *Engine) immutableHeap(name string) bool {
+	if e.C == nil || !strings.HasPrefix(name, "F!") {
+		return false
+	}
+	for f := range e.C.Immutable {
+		i := strings.LastIndex(f, ".")
+		if strings.HasPrefix(name, "F!"+f[:i]+"!."+f[i+1:]) {
+			rest := name[len("F!"+f[:i]+"!."+f[i+1:]):]
+			if rest == "" || rest[0] == '.' || rest[0] == '!' {
+				return true
+			}
+		}
+	}
+	return false
 }
 
 func (e *Engine) execBlock(s *State, b *ssa.BasicBlock, start int, prev *ssa.BasicBlock, outs *[]outcome) []workItem {
